@@ -231,12 +231,15 @@ def run_step(e, t, opts):
         r = nat.remove(ids[i])
         e.verify(r.variant == 0, 'C12: removal of a live datum was rejected')
     new = []
+    soft = []
     # an addition whose name clashes with a live carried-over datum must be refused (and must not make the
     # strategy re-place that datum)
     clash = [i for i in range(n) if i not in t['stale'] and i not in t['rm']]
     if clash and opts.get('clash', True) and not t.get('fixed'):
         r = nat.add('p%d' % clash[0], 4, 4)
-        e.verify(r.variant == 1, 'C12: adding a name that already exists in the current variant was accepted')
+        if r.variant != 1:
+            # keep going: what the accepted addition does to the carried-over datum at the close is C03's business
+            soft.append('C12: adding a name that already exists in the current variant was accepted')
     for j in range(M):
         if t.get('new_aligns'):
             a = t['new_aligns'][j]
@@ -249,6 +252,13 @@ def run_step(e, t, opts):
     nat.close(t['strategy'])
     if not t.get('then'):
         check_after_close(e, nat.inner, before, ids, t, new, nvar_before, opts)
+    if soft:
+        try:
+            e.flush_checks()
+        except Violation as v:
+            raise Violation('; '.join(soft + [v.msg]), v.model)
+        e.check()
+        raise Violation('; '.join(soft), e.model_dict())
     # ---- continuation: further closes from the state just reached (symbolic again)
     e.fixed_values = None
     for si, th in enumerate(t.get('then') or []):
@@ -280,40 +290,45 @@ def run_step(e, t, opts):
 def check_after_close(e, b, before, ids, t, new, nvar_before, opts):
     defs = Layout.defs_of(b)
     variants = Layout.variants_of(b)
+
+    def verify(cond, msg):
+        # a concretely false fact is queued like a symbolic one: the remaining facts of this close (other
+        # properties) are still decided on this path
+        e.verify(z3.BoolVal(False) if cond is False else cond, msg)
     changed = bool(t['rm']) or bool(new)
-    e.verify(len(variants) == nvar_before + (1 if changed or nvar_before == 0 else 0),
+    verify(len(variants) == nvar_before + (1 if changed or nvar_before == 0 else 0),
              'C12: number of variants after close is wrong')
     cur = [x.fields[0] for x in variants[-1].fields[1].items]
     live = [ids[i] for i in range(len(ids)) if i not in t['stale'] and i not in t['rm']]
-    e.verify(sorted(cur) == sorted(live + new), 'C12: closed variant is not predecessor minus removals plus additions')
+    verify(sorted(cur) == sorted(live + new), 'C12: closed variant is not predecessor minus removals plus additions')
     info = {d.fields[0].fields[0]: Layout.info(d) for d in defs}
     # C03: nothing that existed before has moved
     for k, (o, s, a) in before.items():
-        e.verify(info[k][0] == o, 'C03: datum %d moved' % k)
-        e.verify(z3.And(info[k][1] == s, info[k][2] == a) if not (isinstance(s, int) and isinstance(a, int) and
+        verify(info[k][0] == o, 'C03: datum %d moved' % k)
+        verify(z3.And(info[k][1] == s, info[k][2] == a) if not (isinstance(s, int) and isinstance(a, int) and
                  isinstance(info[k][1], int)) else (info[k][1] == s and info[k][2] == a),
                  'C18: type information of datum %d changed' % k)
     # C02: alignment of everything in the variant
     for k in cur:
         o, s, a = info[k]
-        e.verify(_mod_ok(o, a), 'C02: datum %d is not aligned' % k)
+        verify(_mod_ok(o, a), 'C02: datum %d is not aligned' % k)
     # C01: pairwise disjoint (non-zero sizes)
     for x, y in itertools.combinations(cur, 2):
         ox, sx, _ = info[x]
         oy, sy, _ = info[y]
-        e.verify(z3.Or(sx == 0, sy == 0, ox + sx <= oy, oy + sy <= ox), 'C01: data %d and %d overlap' % (x, y))
+        verify(z3.Or(sx == 0, sy == 0, ox + sx <= oy, oy + sy <= ox), 'C01: data %d and %d overlap' % (x, y))
     # C02: list order, non-zero-size data strictly increasing
     for p in range(len(cur)):
         for q in range(p + 1, len(cur)):
             ox, sx, _ = info[cur[p]]
             oy, sy, _ = info[cur[q]]
-            e.verify(z3.Or(sx == 0, sy == 0, ox + sx <= oy), 'C02: list order is not address order (%d before %d)' % (cur[p], cur[q]))
+            verify(z3.Or(sx == 0, sy == 0, ox + sx <= oy), 'C02: list order is not address order (%d before %d)' % (cur[p], cur[q]))
     # INV (strong): consecutive listed data, zero-size included
     if opts.get('check_inv', True):
         for p in range(len(cur) - 1):
             ox, sx, _ = info[cur[p]]
             oy, sy, _ = info[cur[p + 1]]
-            e.verify(ox + sx <= oy, 'INV: list not address-sorted including zero-size data (%d before %d)' % (cur[p], cur[p + 1]))
+            verify(ox + sx <= oy, 'INV: list not address-sorted including zero-size data (%d before %d)' % (cur[p], cur[p + 1]))
 
 
 def _mod_ok(o, a):
